@@ -139,10 +139,7 @@ def nonmembership(ctx):
                       bypass_edges=side, per_iteration=True)
 
     # ---- RF-COVER over NonMembershipProof: every field reaches a guard or a checked call
-    lv = set()
-    for g in vn.guards():
-        if g['fail']:
-            lv |= leaves(g['cond'])
+    lv = guard_leaves(vn)
     lv = {norm_idx(l) for l in lv}
     fields = ['proof.label', 'proof.longest_prefix', CH + '[].label', CH + '[].value', 'proof.longest_prefix_membership_proof']
     adt = [a for a in prog.adts_by_name.get('NonMembershipProof', []) if a['path'].startswith('akd_core::types')]
